@@ -115,7 +115,7 @@ pub fn generate(g: &mut Gen, mode: Mode) {
         let r = &mut g.rng;
         let compact = i % 2 == 1;
         // depths 1..4: every period; 5..7: every period is *reached*, signing/verification sampled
-        let depth = if g.tier == "thorough" { 1 + (i / 2) % 7 } else { [1, 2, 3, 4, 1, 2, 3, 4, 5, 6, 7, 3, 4, 5][(i / 2) % 14] } as u32;
+        let depth = if g.tier == "thorough" { 1 + (i / 2) % 7 } else { [1, 2, 3, 4, 5, 6, 7, 2, 3, 4, 1, 2, 3, 4][(i / 2) % 14] } as u32;
         let total = 1u32 << depth;
         // (an all-zero seed is indistinguishable from a zeroed slot, so the erasure stream does not use it)
         let seed = match r.below(12) { 0 if mode == Mode::Sign => vec![0u8; 32], 1 => vec![0xff; 32], _ => r.bytes(32) };
